@@ -339,8 +339,8 @@ pub fn run(ctx: &Ctx) -> Outcome {
         use crate::gramsweep::{g, gsym, Spec};
         use crate::scopes::*;
         let specs: Vec<Spec> = match ctx.tier {
-            Tier::Quick => vec![g(2, 0, 2, 2), g(2, 1, 2, 2), gsym(2, 2, 2, 2), g(3, 1, 3, 1), gsym(3, 2, 3, 1), gsym(4, 0, 4, 1), Spec::PSpace { max_fields: 2, recursion: false }, Spec::Scaled { deep: false }],
-            Tier::Thorough => vec![g(2, 0, 2, 2), g(2, 1, 2, 2), g(2, 2, 2, 2), g(3, 1, 3, 1), gsym(3, 2, 3, 1), gsym(4, 0, 4, 1), gsym(3, 0, 3, 2), gsym(2, 2, 3, 2), Spec::PSpace { max_fields: 3, recursion: true }, Spec::Scaled { deep: true }],
+            Tier::Quick => vec![g(2, 0, 2, 2), g(2, 1, 2, 2), gsym(2, 2, 2, 2), g(3, 1, 3, 1), gsym(3, 2, 3, 1), gsym(4, 0, 4, 1), Spec::PSpace { max_fields: 2, recursion: false }, Spec::Scaled { deep: false }, Spec::GP(Scope { n: 1, t: 1, p: 2, k: 2, symmetry: false, only_cyclic: false })],
+            Tier::Thorough => vec![g(2, 0, 2, 2), g(2, 1, 2, 2), g(2, 2, 2, 2), g(3, 1, 3, 1), gsym(3, 2, 3, 1), gsym(4, 0, 4, 1), gsym(3, 0, 3, 2), gsym(2, 2, 3, 2), Spec::PSpace { max_fields: 3, recursion: true }, Spec::Scaled { deep: true }, Spec::GP(Scope { n: 1, t: 2, p: 2, k: 2, symmetry: false, only_cyclic: false })],
         };
         for spec in &specs {
             let b = cases.len();
@@ -375,6 +375,20 @@ pub fn run(ctx: &Ctx) -> Outcome {
                 Spec::Scaled { deep } => {
                     for (i, f) in crate::scaled::families(*deep).iter().enumerate() {
                         add(f.g.clone(), crate::scaled::presentation(f, i), &mut cases);
+                    }
+                }
+                Spec::GP(sc) => {
+                    let rhss = all_rhs(sc.n, sc.t, sc.k);
+                    let mut grs = vec![];
+                    for unit in work_units(sc, u128::MAX) {
+                        for_each_completion(sc, &rhss, &unit, &mut |gr| grs.push(gr));
+                    }
+                    for gr in grs {
+                        let mut ps = vec![];
+                        for_each_presentation(&gr, &mut |pres| ps.push(pres));
+                        for pres in ps {
+                            add(gr.clone(), pres, &mut cases);
+                        }
                     }
                 }
                 _ => unreachable!(),
